@@ -789,14 +789,14 @@ pub fn run(ctx: &mut Ctx) {
         ctx.case("optok", true, &format!("optok {} {}", p.nr_cols, p.max_bit_len), "1");
     }
     let cases = gen::cases(ctx);
-    let budget = if ctx.quick() { 6 } else if ctx.thorough() { 14 } else { 24 };
+    let budget = if ctx.quick() { 6 } else if ctx.thorough() { 10 } else { 24 };
     for case in &cases {
         let Some((rec, _out)) = run_case(ctx, case, true) else { continue };
         let Some(honest) = honest_accept(ctx, case, &rec) else { continue };
         tamper_case(ctx, case, &rec, honest, budget);
         if !ctx.quick() {
             if let Some(h2) = honest_accept(ctx, case, &rec) {
-                pair_search(ctx, case, &rec, h2, if ctx.search() { 150 } else { 60 });
+                pair_search(ctx, case, &rec, h2, if ctx.search() { 150 } else { 40 });
             }
         }
     }
